@@ -449,6 +449,33 @@ func runC14(c *Ctx) {
 		isFunc := strings.HasSuffix(name, "Func")
 		ok, why := true, ""
 		loops := findLoops(ps)
+		// nothing is a member of an empty set of unwanted values (Contains' own row): handing the argument back
+		// untouched once len(unwanted) == 0 is known is the trimmed result
+		nothingUnwanted := func(p *Path) bool {
+			if isFunc || p.End != EndReturn || len(p.Rets) != 1 || !isParam(p.Rets[0], 0) {
+				return false
+			}
+			lenU := ToPoly(&Term{Op: "builtin", Sym: "len", Args: []*Term{paramOf(fi, 1)}})
+			for _, cd := range p.Conds {
+				pl, kind, isInt := cd.Rel().IntNorm()
+				if !isInt {
+					continue
+				}
+				if kind == "=" && pl.Equal(canonSign(lenU)) || kind == ">" && pl.Equal(polyConst(1).Add(lenU, -1)) {
+					return true
+				}
+			}
+			return false
+		}
+		if len(loops) > 0 {
+			var rest []*Path
+			for _, p := range ps {
+				if !nothingUnwanted(p) {
+					rest = append(rest, p)
+				}
+			}
+			ps = rest
+		}
 		if len(loops) == 1 && len(loops[0].Phis) == 1 && isIntegerType(loops[0].Phis[0].Type()) {
 			// the index form: scan a boundary index over the argument, re-slice once at the end
 			li := loops[0]
